@@ -23,11 +23,13 @@ for d in sorted(glob.glob(os.path.join(VERIF, 'seeded', '*', 'meta.json'))):
 n = len(rows)
 txt = """### 8.7 Independent seeded changes (`seeded/`, `tools/seed_eval.py`, `bin/selftest seeded`)
 
-%d changes were written in five rounds by fresh sub-agents that saw only the
+%d changes were written in six rounds by fresh sub-agents that saw only the
 text of one property and a scratch worktree (nothing from `/verif`; from round 2
 on they were also given a list of the *ideas* already used, so that they would
 look elsewhere; round 4 asked for cooperating edits in two files and at least
-three coinciding conditions). Each was asked for a realistic change that still
+three coinciding conditions; round 6 asked for a *category* of mistake absent
+from the list - data values nobody tests with, interpreter limits, clean-up
+code failing inside clean-up code, caller-owned handles). Each was asked for a realistic change that still
 compiles, leaves the repository's tests unchanged and needs something specific
 to manifest, with a demonstration. For each one `tools/seed_eval.py` confirmed,
 in scratch worktrees that were removed afterwards: the patch applies to HEAD;
